@@ -61,6 +61,11 @@ CLAIMED = {
         "for every request and storage answer on the chains go2v extracts. Panics inside encoding/xml, etree, goxmldsig, x509 and the SigAlg type assertions are outside the models: the harness "
         "enumerates every single (thorough: every pairwise) structural edit of full AuthnRequest / LogoutRequest / AttributeQuery / SP-metadata documents, SigAlg x key type, routes x methods, "
         "storage faults and byte mutations and recovers panics around every endpoint and NewServiceProvider. partial: no coverage-guided fuzzing of the third-party decoders."),
+ "C18": dict(ref="5 C18", technique="Rocq/Coq proof of the escape / lex-after-marshal / base64 / codec laws + byte-for-byte in-Coq correspondence of real IdP documents with the printer model",
+   text="C18_escape_roundtrip / _escape_any / _no_markup (EscapeText model), C18_document / _single_wellformed / _structure / _structure_any_data (a byte-level lexer inverts the printer for every tree; "
+        "arbitrary data incl. invalid UTF-8 is replaced by U+FFFD and never restructures), C18_base64, C18_codec_roundtrip (under inflate(deflate b) = b and |b| <= cap: the 10 MiB cap of C14 bounds the round trip), "
+        "C18_unknown_encoding, C18_codec_source (switch facts). Tie: every message kind the endpoints emit with hostile data, and Marshal on 7 message types, must equal the Coq print of their raw token tree; "
+        "generic-parser and library-decoder oracles compare the values; codec functions run against the model with compress/flate as oracle. partial: the struct-to-tree mapping of encoding/xml and compress/flate are not modelled."),
  "C16": dict(ref="5 C16", technique="Rocq/Coq proof about go2v-generated Gallina of GetAcsUrlAndBindingForResponse + exhaustive correspondence",
    text="C16_bridge/_refines/_deterministic/_member are proved for all lists about the Gallina function go2v regenerates from sso.go on every run; "
         "the generated function is evaluated inside Coq on sampled and malformed inputs against the exported Go function; every list up to length 3 "
